@@ -21,10 +21,11 @@ func main() {
 	seed := flag.Uint64("seed", 1, "seed")
 	root := flag.String("root", "/verif", "verif root")
 	replay := flag.String("replay", "", "replay file")
+	emit := flag.Bool("emit", false, "child-process mode of C10: print one digest per case")
 	flag.Parse()
 	known, flags := core.LoadKnown(*root)
 	nw := runtime.NumCPU()
-	if *replay != "" {
+	if *replay != "" || *emit {
 		nw = 1
 	}
 	pool, err := drv.NewPool(*root+"/driver/driver", nw, flags)
@@ -36,6 +37,10 @@ func main() {
 	c := core.NewCtx(*prop, *tier, *seed, *root, pool, known)
 	if *replay != "" {
 		os.Exit(doReplay(c, *replay))
+	}
+	if *emit {
+		props.EmitC10(c)
+		return
 	}
 	run := props.Runners[*prop]
 	if run == nil {
